@@ -25,7 +25,26 @@ def base_grids():
                        (('str', '{"a":1}'), ('str', '"x"')), (N.REMOVE, ('time', 12, 34, 0, 0))]))
     B.append(N.mkgrid('2.0', [('r', N.REMOVE)], [('a', []), ('b', [])],
                       [(('str', 'n:1'), ('str', 'a:b')), (N.REMOVE, ('time', 1, 2, 0, 0)), (('str', 'x'), ('uri', 'u:v')), (('ref', 'a', 'x y'), ('bin', 'text/plain'))]))
+    # the same nested grid / dict / list value in several cells (a pre-decoded input may share one object between them)
+    inner = N.mkgrid('3.0', [('im', ('str', 'in'))], [('x', [])], [(ONE,), (N.NA,)])
+    dd = N.mkdict([('k', ('list', (ONE, ('str', 'v')))), ('m', MK)])
+    B.append(N.mkgrid('3.0', [('g', inner)], [('a', [('cm', dd)]), ('b', [])],
+                      [(inner, inner), (dd, ('list', (inner, dd, inner))), (('list', (ONE, ('str', 'v'))), ('list', (ONE, ('str', 'v'))))]))
     return B
+
+
+def share_equal_subobjects(obj, pool=None):
+    """Rebuild a decoded JSON value so that equal dicts/lists are ONE Python object (what a caller who builds the
+    structure by hand may well pass in)."""
+    pool = {} if pool is None else pool
+    if isinstance(obj, dict):
+        new = {k: share_equal_subobjects(v, pool) for k, v in obj.items()}
+    elif isinstance(obj, list):
+        new = [share_equal_subobjects(v, pool) for v in obj]
+    else:
+        return obj
+    key = json.dumps(new, sort_keys=True)
+    return pool.setdefault(key, new)
 
 
 BASE = base_grids()
@@ -60,16 +79,18 @@ def _run_case(ch, st, bi):
     grids = [g, SMALL, g][:ngrids]
     array = True if ngrids > 1 else ch.choose('array', [False, True])
     obj = refjson.write(grids, ch.choose, array=array)
-    form = ch.choose('form', ['str', 'bytes', 'object'])
+    form = ch.choose('form', ['str', 'bytes', 'object', 'object-shared'])
     single = ch.choose('single', [True, False])
     text = json.dumps(obj)
     if form == 'str':
         src = text
     elif form == 'bytes':
         src = text.encode('utf-8')
-    else:
+    elif form == 'object':
         src = json.loads(text)
-    snapshot = json.dumps(src, sort_keys=True) if form == 'object' else None
+    else:
+        src = share_equal_subobjects(json.loads(text))
+    snapshot = json.dumps(src, sort_keys=True) if form.startswith('object') else None
     devs = sorted(ch.used)
     classes = sorted(set(c03._label_class(l) for l in devs))
     sig = {'spellings': '|'.join(classes) or '-'}
@@ -82,7 +103,7 @@ def _run_case(ch, st, bi):
         st.fail('well-formed-json-rejected', dict(sig, exc=type(e).__name__), case, {'json': text[:1200], 'form': form, 'single': single, 'exc': repr(e)[:300]})
         return
     ok = True
-    if form == 'object' and json.dumps(src, sort_keys=True) != snapshot:
+    if form.startswith('object') and json.dumps(src, sort_keys=True) != snapshot:
         st.fail('caller-object-modified', sig, case, {'json': text[:1200]})
         ok = False
     got_list = [got] if single else got
